@@ -22,20 +22,27 @@ import vlib
 from vlib import f2b, fs2b, b2f, b2fs
 
 ID = "C01"
-GEN = ["Leaves", "Combinators", "Planar"]
+GEN = ["Leaves", "Combinators", "Planar", "Misc", "Params", "Flows"]
 RULE = ("expression trees over generated leaves (Affine/Loc/Scale with both signs, Exp, SoftPlus, Tanh, LeakyTanh, "
         "RationalQuadraticSpline with perturbed raw parameters) under generated Chain/Invert, depth<=3, evaluated by all "
         "four methods on boundary-directed inputs (interval ends, knots, ±max_val, tanh(max_val), ±1, 0, float neighbours, "
         "large magnitudes); a case is non-trivial when its parameters differ from the initialisation and the input is a "
-        "boundary value or lands on a non-default branch; distinct = distinct (tree, method, input) triples")
+        "boundary value or lands on a non-default branch; distinct = distinct (tree, method, input) triples; premade flows: real "
+        "coupling / MAF / planar flows from the factories (dims 1-5, 1-4 layers, conditional or not, both orientations, default / Affine / "
+        "spline transformers, all parameters perturbed) and hand-stacked BNAF / triangular-spline layer stacks, structure and all four "
+        "methods of flow.bijection against the generated factory bodies")
 TRUSTED = [
     "Lean 4.33 kernel; Mathlib v4.33; axioms propext, Classical.choice, Quot.sound",
+    "premade flows: py2lean typing sheet tools/py2lean/targets_flows.py; Model/FlowsPre.lean (Scan = generated Chain of the unstacked layers, "
+    "filter_vmap(make_layer) = one layer per key, a PRNG key = what it determines) — validated on real factory-built flows by tools/props/flows.py",
     "py2lean translator + typing sheet tools/py2lean/targets_leaves.py, targets_comb.py (validated by this correspondence)",
     "Prelude/Jnp.lean specs of where/abs/sign/clip/searchsorted/getItem (validated by this correspondence)",
     "Model/ToBij.lean elementwise lifting (hand-written, validated on vectors here)",
     "theorems are over ℝ: IEEE rounding/overflow is measured (rtol 1e-9) not proved",
 ]
-ASSUMPTIONS = ["Coupling/MAF/BNAF/Scan/Vmap lawfulness is covered by the oracle search and by C08/C09/C10's models, not by C01 theorems yet",
+ASSUMPTIONS = ["whole premade flows: theorems for coupling / MAF / planar(leaky-relu) flows in both orientations for every number of layers; BNAF flows "
+               "forward-only without a hypothesis on the inverter (lawful with an exact inverter); tanh planar flows forward-only (the library has no inverse); "
+               "transformer families lawful on all of ℝ (Affine-shaped, splines); Vmap / array combinators through C08's model",
                "Planar: theorems cover the leaky-relu activation with 0 < negative_slope <= 1 and w != 0 (tanh has no analytic inverse in the library; "
                "negative_slope > 1 is the known finding planar_steep); TriangularAffine: hand model, triangular matrix with non-zero diagonal"]
 
@@ -235,6 +242,11 @@ def corr(c, tier, rng):
     planar_tri.corr_triangular(c, tier, rng)
     from props import oracles
     oracles.corr_method_agreement(c, tier, rng)
+    # --- whole premade flows (generated factory bodies of Gen/Flows.lean) against real factory-built flows: the four methods of flow.bijection
+    from props import flows
+    # (quick tier: C01 is the one property that runs the hand-built BNAF and triangular-spline stacks, so it also compares
+    #  log_prob / sample / sample_and_log_prob on the latter; in the thorough tier C03 and C08 run them as well)
+    flows.corr_flows(c, tier, rng, methods=("t", "tl", "i", "il"), trispline_methods=flows.METHODS if tier == "quick" else None)
 
 
 def scan_objects(rng):
@@ -332,6 +344,14 @@ def leaf_zoo(rng, n):
 def search(hints, tier, rng):
     """Round-trip oracle on the real objects at the boundary-directed set."""
     wit = []
+    # whole premade flows from the factories: structure, round trips of flow.bijection, Scan vs Chain of the unstacked layers
+    from props import flows
+    for w in flows.search_flows(tier, rng):
+        w.setdefault("tokens", ["FLOW", w.get("desc", "")])
+        w.setdefault("tree", w.get("desc", "")); w.setdefault("x", None)
+        wit.append(w)
+    if len(wit) >= 5:
+        return wit[:5]
     # stacks of distinct layers (every premade flow's layer stack is a Scan)
     for name, scan, cd in scan_objects(rng):
         cond = jnp.asarray([rng.uniform(-1, 1) for _ in range(cd)]) if cd else None
@@ -390,6 +410,10 @@ def replay(w):
     if w.get("kind") in ("planar", "net", "nested_invert"):
         from props import oracles
         return bool(oracles.replay_witness(w))
+    if w["tokens"][0] == "FLOW":
+        import random
+        from props import flows
+        return bool(flows.search_flows("quick", random.Random(0)))
     if w["tokens"][0] == "SCAN":
         import random
         return bool(search({}, "quick", random.Random(0)))
